@@ -25,24 +25,24 @@ struct SharedMemory {
     }
 
     u16 ReadWord(u32 word_address) const {
+        ASSERT(word_address < MemorySize / 2);
 #ifdef TEAKRA_VERIF
         if (Verif::mem_observer)
             Verif::mem_observer(this, word_address, false, 0);
 #endif
-        ASSERT(word_address < MemorySize / 2);
         u32 byte_address = word_address * 2;
         u8 low = raw[byte_address];
         u8 high = raw[byte_address + 1];
         return low | ((u16)high << 8);
     }
     void WriteWord(u32 word_address, u16 value) {
+        ASSERT(word_address < MemorySize / 2);
 #ifdef TEAKRA_VERIF
         if (Verif::mem_observer)
             Verif::mem_observer(this, word_address, true, value);
 #endif
         u8 low = value & 0xFF;
         u8 high = value >> 8;
-        ASSERT(word_address < MemorySize / 2);
         u32 byte_address = word_address * 2;
         raw[byte_address] = low;
         raw[byte_address + 1] = high;
